@@ -164,7 +164,8 @@ class C17(Prop):
         "tables_pinned", "table_ids", "no_initiator_stop", "read_write_roundtrip", "rna_objects_ok", "expand_is_iupac", "translation_spec", "translation_shared",
         "initiator_spec", "initiator_settings", "window_split_invariant", "orf_stream_eq_spec", "orf_frame_declarative", "orf_numbering_and_order", "builtin_tables_ok",
         "standard_code_by_amino_acid", "tables_differ_as_documented", "read_never_faults", "read_never_faults_hyps", "write_never_faults", "write_never_faults_hyps", "read_ok_is_code", "read_ok_is_complete", "decode_digicodon_bounds", "decode_digicodon_inverse",
-        "compare_spec", "process_orf_spec", "translation_out_of_alphabet_faults", "short_windows")]
+        "compare_spec", "process_orf_spec", "translation_out_of_alphabet_faults", "short_windows",
+        "reverse_strand_windows", "windowed_eq_full_length")]
     claimed = True
     technique = ("Lean 4 proof: built-in tables regenerated from the tree = hand-pinned NCBI tables by `decide`; general theorems (any table, any "
                  "degeneracy matrix) that the triple loop computes the shared amino acid / all-initiators; ORF machine modelled and tied by exact "
@@ -277,6 +278,33 @@ class C17(Prop):
             orf("CTGAAATGA", init="aug", using=2), orf("AAACTGAAATGACC", init="table", using=1, cuts="3,1,1,1,1,1,1,1,1,1,1,1"),
             orf("ATGAAATAAATGCCCTAGG", cuts="3,3,3,3,3,4"), orf("ATGAAATAAATGCCCTAGG", cuts="4,5,10"), orf("TTATTTCAT", strand="c"),
             orf("ATGRAYTAR", minlen=1), orf("ATGTRATAA", minlen=1), orf("ATG-AATAA", minlen=1)]})
+        # whole files through the real main loops of esl-translate.c: every combination of --watson/--crick/-m/-M/-W, minlen 0/1,
+        # sequences of 0..5 residues, every table x initiator option on a sequence made only of degenerate residues
+        import random as _r
+        rg = _r.Random(17)
+        ops = []
+        short = [("e", "", ""), ("a", "x", "A"), ("b", "", "AT"), ("c", "c d", "ATG"), ("d", "", "ATGA"), ("f", "dd", "NTGAR"), ("g", "", "ATGAAATAAATGCCCTAGG")]
+        for W in (0, 1):
+            for wat, cri in ((0, 0), (1, 0), (0, 1), (1, 1)):
+                for m, M in ((0, 0), (1, 0), (0, 1)):
+                    for l in (0, 1):
+                        ops.append(self.xlate_op(rg, 1, short, l=l, m=m, M=M, watson=wat, crick=cri, W=W, lw=60))
+        ops.append(self.xlate_op(rg, 1, short, l=0, m=1, M=1, watson=0, crick=0, W=0, lw=60))
+        ops.append(self.xlate_op(rg, 7, short, l=0, m=0, M=0, watson=0, crick=0, W=0, lw=60))
+        out.append({"name": "xlate-options", "sticky": 0, "ops": ops})
+        ops = []
+        for tid in IDS:
+            degs = [("n%d" % k, "", "".join(rg.choice("RYMKSWHBVDN") for _ in range(L))) for k, L in enumerate((3, 4, 5, 9, 31, 60))]
+            degs.append(("ryn", "", "".join(rg.choice("RYH") for _ in range(90))))
+            for m, M in ((0, 0), (1, 0), (0, 1)):
+                ops.append(self.xlate_op(rg, tid, degs, l=rg.choice([0, 1]), m=m, M=M, watson=0, crick=0, W=rg.randrange(2), lw=60))
+        out.append({"name": "xlate-degenerate", "sticky": 0, "ops": ops})
+        ops = []
+        for L in (4091, 4092, 4093, 4094, 4095, 8184, 8185, 8186, 8187):
+            dna = self.rand_dna(rg, L, 1)
+            for W in (0, 1):
+                ops.append(self.xlate_op(rg, 1, [("w", "win", dna), ("t", "", "ATGAAATAA")], l=5, m=0, M=0, watson=0, crick=0, W=W, lw=60))
+        out.append({"name": "xlate-window-boundaries", "sticky": 0, "ops": ops})
         return out
 
     # ------------------------------------------------------------------------------------------------------------
@@ -395,6 +423,40 @@ class C17(Prop):
             ops.append("orfs id=%d init=any using=0 minlen=0 strand=b dna=%s cuts=%s" % (tid, dna.encode().hex() or "-", "-" if L < 3 else rng.choice(["-", "2," + ",".join(["1"] * (L - 2))])))
         return ops
 
+    def xlate_op(self, rng, tid, seqs, **kw):
+        """one run of esl-translate's main loops over a FASTA file of <seqs> = [(name, desc, dna)]"""
+        d = dict(id=tid, l=rng.choice([0, 0, 1, 1, 2, 5, 20]), m=0, M=0, watson=0, crick=0, W=0, lw=rng.choice([60, 60, 1, 3, 70, 4092, 100000]))
+        r = rng.random()
+        if r < 0.25: d["m"] = 1
+        elif r < 0.5: d["M"] = 1
+        r = rng.random()
+        if r < 0.2: d["watson"] = 1
+        elif r < 0.4: d["crick"] = 1
+        elif r < 0.45: d["watson"] = d["crick"] = 1
+        d["W"] = 1 if rng.random() < 0.5 else 0
+        d.update(kw)
+        op = "xlate id=%(id)d l=%(l)d m=%(m)d M=%(M)d watson=%(watson)d crick=%(crick)d W=%(W)d lw=%(lw)d" % d
+        op += " n=%d" % len(seqs)
+        for i, (nm, ds, dna) in enumerate(seqs):
+            op += " name%d=%s desc%d=%s dna%d=%s" % (i, nm, i, ds.encode().hex() or "-", i, dna.encode().hex() or "-")
+        return op
+
+    def xlate_cases(self, rng, tid, big):
+        """whole files through do_by_sequences / do_by_windows: sequences of 0..5 residues between longer ones, sequences made
+        only of degenerate residues, lengths around the 4092-residue window of -W (4090..4096, 8183..8186), every option combination"""
+        seqs = []
+        for i in range(rng.randrange(1, 6)):
+            r = rng.random()
+            if r < 0.3: L = rng.randrange(0, 6)
+            elif r < 0.8 or not big: L = rng.randrange(3, 200)
+            else: L = rng.choice([4090, 4091, 4092, 4093, 4094, 4095, 4096, 8183, 8184, 8185, 8186, rng.randrange(4000, 9000)])
+            r = rng.random()
+            if r < 0.25: dna = "".join(rng.choice("RYMKSWHBVDN") for _ in range(L))          # only degenerate residues
+            elif r < 0.35: dna = "".join(rng.choice("RYN") for _ in range(L))
+            else: dna = self.rand_dna(rng, L, tid)
+            seqs.append(("s%d" % i, rng.choice(["", "d%d" % i, "two words"]), dna))
+        return self.xlate_op(rng, tid, seqs)
+
     def rand_cuts(self, rng, L):
         if L < 3: return "-"
         r = rng.random()
@@ -445,6 +507,8 @@ class C17(Prop):
                 ops[-1] = "readm" + ops[-1][4:]
             if rng.random() < 0.08:
                 ops += self.boundary_orfs(rng, tid)
+            if rng.random() < 0.25:
+                ops.append(self.xlate_cases(rng, tid, i % 25 == 0))
             if rng.random() < 0.1:
                 ops.append("decode d=%d%s" % (rng.choice([rng.randrange(0, 64), rng.randrange(0, 304)]), rng.choice(["", " nt=rna"])))
                 ops.append("compare id=%d init=%s id2=%d init2=%s meta=%d%s" % (tid, rng.choice(["table", "any", "aug"]), rng.choice(IDS + [tid, tid]),
@@ -459,7 +523,7 @@ class C17(Prop):
         return "fault" if line.startswith("fault") else line
 
     def nontrivial(self, case, out):
-        return any((l.startswith("ok n=") and not l.startswith("ok n=0")) or l.startswith("ok tr=") for l in out)
+        return any((l.startswith("ok n=") and not l.startswith("ok n=0")) or l.startswith("ok tr=") or (l.startswith("ok w=") and " n=0" not in l) for l in out)
 
     def _monitor(self, ctx, case, out):
         prev_orf = None
@@ -496,6 +560,37 @@ class C17(Prop):
                         and (int(d.get("meta", 0)) == 0 or t1 == t2))
                 if l != ("ok same" if same else "ok differ"):
                     return Failure("monitor", "esl_gencode_Compare(table %d/%s, table %d/%s, meta=%s) answered %r" % (t1, d.get("init"), t2, d.get("init2"), d.get("meta"), l[:40]))
+                continue
+            if name == "xlate":
+                if int(d.get("m", 0)) and int(d.get("M", 0)):
+                    if l != "bad-options": return Failure("monitor", "esl-translate accepted -m together with -M: %r" % l[:60])
+                    continue
+                tid = int(d.get("id", 1))
+                if tid not in PINNED:
+                    if l != "enotfound": return Failure("monitor", "unknown table id %d answered %r" % (tid, l[:60]))
+                    continue
+                init = "aug" if int(d["m"]) else ("table" if int(d["M"]) else "any")
+                basic, ini = pinned_arrays(tid, init)
+                using = bool(int(d["m"]) or int(d["M"])); minlen = int(d["l"])
+                strands = ("" if int(d["crick"]) else "w") + ("" if int(d["watson"]) else "c")
+                want = []
+                for i in range(int(d["n"])):
+                    dna = unhex(d["dna%d" % i]).decode("latin1").upper().replace("U", "T")
+                    codes = [NUC.index(c) for c in dna]
+                    src = d["name%d" % i]; ds = unhex(d["desc%d" % i]).decode("latin1")
+                    for (f, st, en, aa) in spec_orfs(codes, basic, ini, using, minlen, strands):
+                        want.append((st, en, aa, "source=%s coords=%d..%d length=%d frame=%d desc=%s" % (src, st, en, len(aa), f, ds)))
+                toks = l.split()
+                hdr = "ok w=%d c=%d u=%d l=%d f=1 n=%d" % (0 if int(d["crick"]) else 1, 0 if int(d["watson"]) else 1, 1 if using else 0, minlen, len(want))
+                if " ".join(toks[:7]) != hdr:
+                    return Failure("monitor", "esl-translate main loop: work state / ORF count %r, specification %r" % (" ".join(toks[:7]), hdr))
+                for k, t in enumerate(toks[7:]):
+                    nm, st, en, ln, aa, desc = t.split(":")
+                    got = (nm, int(st), int(en), int(ln), list(unhex(aa)), unhex(desc).decode("latin1"))
+                    w_ = want[k]
+                    wantk = ("orf%d" % (k + 1), w_[0], w_[1], len(w_[2]), w_[2], w_[3])
+                    if got != wantk:
+                        return Failure("monitor", "esl-translate ORF %d: got %r, specification %r" % (k + 1, got[:4] + (got[5],), wantk[:4] + (wantk[5],)))
                 continue
             if name == "readm":
                 if not (l == "eformat" or l.startswith("ok id=-1 desc=- basic=")):
